@@ -500,9 +500,11 @@ def walk_sequence(
 ) -> Iterable[Tuple[ast.AST]]:
     """Iterate over all sequences of nodes in scope that match a sequence of templates."""
     uncommon = set()
-    for node in walk(
-        scope, tuple({*constants.AST_TYPES_WITH_BODY, *constants.AST_TYPES_WITH_ORELSE})
-    ):
+    # A dict rather than a set, to visit the scopes in the same order in every process
+    scope_types = tuple(
+        dict.fromkeys((*constants.AST_TYPES_WITH_BODY, *constants.AST_TYPES_WITH_ORELSE))
+    )
+    for node in walk(scope, scope_types):
         for body in [getattr(node, "body", []), getattr(node, "orelse", [])]:
             if not body:
                 continue
